@@ -340,13 +340,30 @@ def cancel_case(driver, seed, k, after, res):
     sim = simlib.Sim(driver, picker)
     log = {}
 
+    pause = (0, 0, 0.4)[k % 3]
+    as_sequence = (k // 2) % 2 == 1          # the victim runs a sequence (run_sequence) instead of a single send
+    with_bystander = (k // 4) % 2 == 1       # somebody else's command is in flight: the victim may be cancelled while queued
+
     async def victim():
         cmd = simlib.make_command(r, r.choice(["query", "twice", "dtquery" if driver != "hasseb" else "query"]), 3, k, driver)
         log["victim_cmd"] = cmd
+        cmd2 = simlib.make_command(r, "query", 3, (k + 1) % 16, driver)
+        log["victim_frames"] = [(len(c_.frame), c_.frame.as_integer) for c_ in (cmd, cmd2)] + [(16, 0xC100 + cmd.devicetype)]
+        if as_sequence:
+            def g():
+                yield cmd
+                yield cmd2
+            return await sim.driver.run_sequence(g())
         return await sim.driver.send(cmd)
 
     async def main(sim):
         await sim.connect()
+        by = None
+        if with_bystander:
+            by_cmd = simlib.make_command(r, "query", 3, (k + 8) % 16, driver)     # an address nobody else in this run uses
+            by_t0 = sim.world.now
+            by = asyncio.ensure_future(sim.driver.send(by_cmd))
+            await asyncio.sleep(0)
         t = vloop.CountingTask(victim(), loop=asyncio.get_running_loop(), cancel_at=k)
         try:
             log["victim"] = ("ok", await t)
@@ -354,8 +371,20 @@ def cancel_case(driver, seed, k, after, res):
             log["victim"] = ("cancelled", None)
         except Exception as e:
             log["victim"] = ("exc", e)
+        log["t_cancel"] = sim.world.now
         log["steps"] = t.steps
+        if pause:
+            # the abandoned command's reports all arrive before anybody sends again: the next send must discard them
+            await asyncio.sleep(pause)
+            log["t_cancel"] = sim.world.now
         results = []
+        if by is not None:
+            # the command that was in flight while the victim was cancelled still gets its own answer
+            try:
+                results.append(("ok", await asyncio.wait_for(by, 20.0), by_cmd, by_t0))
+            except Exception as e:
+                results.append(("exc", e, by_cmd, by_t0))
+            res.hit("cancel_with_command_in_flight")
         for n in range(after):
             cmd = simlib.make_command(r, ["query", "plain", "query", "twice"][n % 4], n % 3, n // 3, driver)
             t0 = sim.world.now
@@ -372,7 +401,8 @@ def cancel_case(driver, seed, k, after, res):
     res.evaluations += 1
     res.distinct += 1
     res.hit("cancel_runs")
-    wit = {"driver": driver, "seed": seed, "cancel_at_step": k, "victim": str(log.get("victim_cmd")), "victim_outcome": repr(log.get("victim"))[:80],
+    wit = {"driver": driver, "seed": seed, "cancel_at_step": k, "victim_runs_sequence": as_sequence, "command_in_flight": with_bystander, "pause_after_cancel": pause,
+           "victim": str(log.get("victim_cmd")), "victim_outcome": repr(log.get("victim"))[:80],
            "victim_steps": log.get("steps")}
     try:
         if simlib.detached(out):
@@ -390,7 +420,23 @@ def cancel_case(driver, seed, k, after, res):
                 break
             p = check_answer(driver, cmd, val, wire, t_from=t0)
             if p:
-                res.violation(f"C17/{driver}/wrong-result/after-cancel", f"send number {n + 1} ({cmd}) after the cancellation {p}", {**wit, "n": n + 1})
+                # mechanism: was a command of the cancelled caller still in progress in the gateway (written, its
+                # transmission / reports not yet through) when the next command was written?
+                tc = log.get("t_cancel", 0.0)
+                writes = getattr(getattr(sim.dev, "transport", None), "written", None) or getattr(sim.dev, "writes", [])
+                nxt = [tw for (tw, dd) in writes if tw >= tc - 1e-9]
+                t_next = nxt[0] if nxt else float("inf")
+                vframes = set(log.get("victim_frames", []))
+                vbytes = [v_.to_bytes(w_ // 8, "big") for (w_, v_) in vframes]
+                # (a) a victim frame went onto the bus so late that its reports reached the host after the next write, or
+                # (b) a victim frame was written to the gateway before the cancellation and transmitted only after the next write
+                late_reports = any((w_["width"], w_["value"]) in vframes and tc - 0.2 <= w_["t"] and w_["t"] + 0.03 > t_next for w_ in wire)
+                v_writes = [tw for (tw, dd) in writes if tw < tc + 1e-9 and any(vb in bytes(dd) for vb in vbytes)]
+                late_tx = any(not any((w_["width"], w_["value"]) in vframes and tw <= w_["t"] < t_next for w_ in wire) for tw in v_writes[-1:])
+                in_progress = late_reports or late_tx
+                key = f"C17/{driver}/wrong-result/after-cancel" if (in_progress and log.get("victim", ("",))[0] == "cancelled") \
+                    else f"C17/{driver}/wrong-result/after-cancel/nothing-in-progress"
+                res.violation(key, f"send number {n + 1} ({cmd}) after the cancellation {p}", {**wit, "n": n + 1, "cancelled_at": tc, "next_write_at": t_next})
                 break
         res.hit("state_checked")
         probs = state_problems(sim, driver)
